@@ -109,6 +109,36 @@ def _rq_events(args):
 
     rnd = random.Random(seed)
     ev = []
+    # collections built on a SEQUENCE CHUNK that straddles a bin boundary: bins are a matter of chromosome coordinates
+    from inscripta.biocantor.io.parser import seq_chunk_to_parent
+
+    for _ in range(max(1, n // 3)):
+        size = 1 << 17
+        base = rnd.randrange(1, 6) * size
+        cs = base - rnd.randrange(100, 400)
+        ce = base + rnd.randrange(200, 900)
+        chunk = seq_chunk_to_parent("ACGT" * ((ce - cs) // 4) + "A" * ((ce - cs) % 4), "chr", cs, ce)
+        spans, genes = [], []
+        for k in range(rnd.randrange(1, 6)):
+            s = rnd.randrange(cs, ce - 3)
+            e = min(ce, s + rnd.choice([1, 2, 5, 60, 200]))
+            tx = TranscriptInterval([s], [e], Strand.PLUS if k % 2 else Strand.MINUS, parent_or_seq_chunk_parent=chunk)
+            genes.append(GeneInterval([tx], parent_or_seq_chunk_parent=chunk))
+            spans.append([s, e])
+        coll = AnnotationCollection(genes=genes, start=cs, end=ce, sequence_name="chr", parent_or_seq_chunk_parent=chunk)
+        for _q in range(8):
+            qs = rnd.randrange(cs, ce - 1)
+            qe = min(ce, qs + rnd.choice([1, 3, 50, 200, 600]))
+            for cw in (True, False):
+                try:
+                    res = coll.query_by_position(qs, qe, completely_within=cw)
+                    got = sorted(i + 1 for i, sp in enumerate(spans)
+                                 if any(g.start == sp[0] and g.end == sp[1] and g.guid == genes[i].guid for g in res.genes))
+                    if len(res.genes) != len(got):
+                        got = got + [0]
+                except Exception as ex:  # judged as a wrong answer
+                    got = [0, type(ex).__name__]
+                ev.append(["rq", qs, qe, cw, spans, got])
     for _ in range(n):
         sh = rnd.choice([17, 17, 20])
         size = 1 << sh
